@@ -983,6 +983,63 @@ func voteCases(t testing.TB, run *hx.Run, sc *chainx.Scratch, ci int) int {
 	return ci
 }
 
+// redesignations: old -> new NeoFS Alphabet (ids of the 7 chain members): disjoint, overlapping, larger, smaller,
+// one key replaced, a single key handing over to three
+var redesignations = [][2][]int{
+	{{0, 1, 2}, {3, 4, 5}}, {{0, 1, 2}, {1, 2, 3}}, {{0, 1, 2}, {0, 1, 2, 3, 4}},
+	{{0, 1, 2, 3, 4}, {0, 1}}, {{0, 1, 2, 3}, {0, 1, 2, 6}}, {{5}, {0, 1, 2}}, {{0, 1, 2, 3, 4, 5, 6}, {2, 4, 6}},
+}
+
+// redesignCases: the main-chain contracts obey the NeoFS Alphabet IN FORCE: the committee re-designates the role in
+// block N and `update` goes into block N+1 (the harness adds nothing in between), signed by the majority of the
+// DISMISSED Alphabet (must be refused; afterwards the new majority updates) and, in a second case, by the majority of
+// the NEW Alphabet (must be accepted in that very block). Gate cases: nothing but the witness decides.
+// Quick: NeoFS x 3 shapes; thorough (first shard): NeoFS and Processing x all shapes.
+func redesignCases(t testing.TB, run *hx.Run, sc *chainx.Scratch, ci int) int {
+	if common.Version-1 < common.PrevVersion {
+		return ci
+	}
+	kinds, shapes := []string{"neofs"}, redesignations[:3]
+	if run.Tier == "thorough" {
+		if run.Shard != 0 {
+			return ci
+		}
+		kinds, shapes = []string{"neofs", "processing"}, redesignations
+	}
+	maj := func(ids []int) string { return msig(len(ids)/2+1, ids) }
+	for _, kind := range kinds {
+		for si, sh := range shapes {
+			for variant := 0; variant < 2; variant++ {
+				ci++
+				cs := caseSpec{id: fmt.Sprintf("redesign.%s.%d.%s", kind, si, []string{"old", "new"}[variant]), kind: kind,
+					n: 7, v: common.Version - 1, wf: true, gate: true, role: sh[0]}
+				w := startCase(t, run, sc, cs)
+				if w == nil {
+					continue
+				}
+				do := func(l string) {
+					line, obs := w.execOp(l)
+					run.Op(line, obs)
+				}
+				upd := func(sig string, ids []int) string {
+					mem := 1
+					fmt.Sscanf(sig, "m%d.", &mem)
+					return fmt.Sprintf("op update q=- sig=%s mem=%d role=%s data=n nef=ok h=?", sig, mem, fmtIDs(ids))
+				}
+				do(fmt.Sprintf("op load q=- kv=%s", fmtKVs(w.scan())))
+				do(fmt.Sprintf("op designate q=- role=%s h=?", fmtIDs(sh[1])))
+				if variant == 0 {
+					do(upd(maj(sh[0]), sh[1])) // block N+1: the dismissed majority
+					do(upd(maj(sh[1]), sh[1])) // block N+2: the new one
+				} else {
+					do(upd(maj(sh[1]), sh[1])) // block N+1: the new majority at once
+				}
+			}
+		}
+	}
+	return ci
+}
+
 // netmapCountCases: one in-quantifier Netmap case per stored snapshot count, from the oldest supported version (the
 // node structures are converted below 0.16 only), in every tier, shard and seed.
 func netmapCountCases(t testing.TB, run *hx.Run, sc *chainx.Scratch, ci int) int {
@@ -1036,6 +1093,7 @@ func generate(t testing.TB, run *hx.Run, sc *chainx.Scratch) {
 	}
 	ci = gateCases(t, run, sc, ci)
 	ci = voteCases(t, run, sc, ci)
+	ci = redesignCases(t, run, sc, ci)
 	ci = netmapCountCases(t, run, sc, ci)
 	ci = alphabetGasCases(t, run, sc, ci)
 	for _, k := range allKinds {
